@@ -3,8 +3,7 @@ from common import *
 
 RULE = ('no cases of its own: the model functions of the theorems (Model/Join.v, Model/JoinTri.v) are compared with the implementation by the C07 '
         'join suites, which include stroke widths 0 and 1 with all three alignments (join_tri_pixels / join_tri_rects / join_tri_bbox, joinh_join)')
-PARTIAL = ['C19_join_tri_outline_w1_partial (full statement C19_join_tri_outline_w1: a triangle with stroke width 1 and no fill paints exactly the union '
-           'of the three Bresenham lines between its clockwise-ordered vertices; proved: for Center alignment each of the three segments of the stroke '
-           'IS the Bresenham line between consecutive clockwise vertices; open: the two-slot merge of edge_intersections never drops a scanline, and the '
-           'Inside / Outside alignments)']
+PARTIAL = ['C19_join_tri_outline_w1 is proved for Center alignment; Inside / Outside alignment with width 1 take the same path in the implementation '
+           '(suites joinh_extents, join_tri_pixels) but are not stated: the width-1 lemma for Line::extents exists for StrokeOffset::None only; '
+           'C19_join_tri_outline_w1_partial (per-edge statement) is kept as the stepping stone']
 ASSUMPTIONS = ['vertex coordinates within i32 (the saturating cast of the join intersection is the identity on them)']
